@@ -234,7 +234,7 @@ def make_spec(mode: str, idx: int, case_seed: int) -> Dict[str, Any]:
             L = int(r.choice([int(r.integers(3, 40)), int(r.integers(40, 600)), N, N // 2]))
             s["freq"] = float(r.uniform(0.0, 0.5)) * s["fs"] if idx % 7 else [0.0, 0.5 * s["fs"]][(idx // 7) % 2]
         s["L"] = int(L)
-        s["via"] = ["L", "fres", "L"][idx % 3]
+        s["via"] = ["L", "fres", "fres_frac"][idx % 3]      # fres_frac: a resolution that does NOT divide fs (segL = round(fs/fres); the bin is still `freq`)
     return s
 
 
@@ -267,10 +267,20 @@ def run_impl(s: Dict[str, Any], data: np.ndarray, backend: str, cuda: Optional[C
     with warnings.catch_warnings():
         warnings.simplefilter("ignore")
         if s["mode"].startswith("single"):
+            fres_frac = None
+            if s.get("via") == "fres_frac":
+                delta = ((s["rec_seed"] % 1000) / 1000.0 - 0.5) * 0.9            # fs/fres = L + delta, |delta| <= 0.45: rounds back to L
+                fr = s["fs"] / (s["L"] + delta)
+                if int(round(s["fs"] / fr)) == s["L"]:
+                    fres_frac = fr
             if s.get("wrapper"):
                 from speckit.analysis import compute_single_bin
+                if fres_frac is not None:
+                    return compute_single_bin(data, s["fs"], s["freq"], fres=fres_frac, backend=backend, **o)
                 return compute_single_bin(data, s["fs"], s["freq"], L=s["L"], backend=backend, **o)
             an = _an.analyzer(data, s["fs"], backend=backend, **o)
+            if fres_frac is not None:
+                return an.compute_single_bin(s["freq"], fres=fres_frac)
             if s.get("via") == "fres" and int(round(s["fs"] / (s["fs"] / s["L"]))) == s["L"]:
                 return an.compute_single_bin(s["freq"], fres=s["fs"] / s["L"])
             return an.compute_single_bin(s["freq"], L=s["L"])
